@@ -62,6 +62,10 @@ def instances(tier, seed):
         if tier == 'quick':
             out.append({'id': f'{pitlib.prog_id(spec)}:full=0:single:params', 'spec': spec, 'full': False, 'mode': 'single:params', 'wseed': seed})
         out.append({'id': f'{pitlib.prog_id(spec)}:open_masks', 'spec': spec, 'full': True, 'mode': 'open', 'wseed': seed})
+    # discrete cost switched on AFTER construction, in another phase of the search (masks frozen by train_net_only / train_features=False)
+    for spec in ([progs[0], progs[5]] if tier == 'quick' else [progs[0], progs[2], progs[5], progs[6]]):
+        for late in ('train_net_only', 'train_features=False', 'plain'):
+            out.append({'id': f'{pitlib.prog_id(spec)}:full=1:dict:late_discrete:{late}', 'spec': spec, 'full': True, 'mode': 'dict', 'wseed': seed, 'late': late})
     # the cost (and a summary / export) has been read at the previous masks; the new masks are then written through .data / in place
     for spec in ([progs[0], progs[5]] if tier == 'quick' else [progs[0], progs[2], progs[3], progs[5], progs[6]]):
         for hist in ('data', 'nograd'):
@@ -105,7 +109,7 @@ def concrete_case(rec):
     from plinio.methods import PIT
     spec, mode, full = rec['spec'], rec['mode'], rec['full']
     cost, names = _cost_arg(spec['fam'], 'dict' if mode.startswith('dict') or mode == 'open' else mode)
-    pit, model, shape = pitlib.make_pit(spec, rec.get('wseed', 0), cost=cost, full_cost=full, discrete_cost=True)
+    pit, model, shape = _make(spec, rec.get('wseed', 0), cost, full, rec.get('late'))
     if rec.get('hist'):
         _use(pit, names, shape)
     pitlib.set_masks(pit, rec['masks'], rec.get('hist') or 'nograd')
@@ -116,6 +120,18 @@ def concrete_case(rec):
     want = scratch_costs(spec, e, shape, 'dict' if mode.startswith('dict') else mode, full, model)
     ind = independent_counts(spec, e, shape, full, model)
     return got, want, ind
+
+
+def _make(spec, wseed, cost, full, late=None):
+    if not late:
+        return pitlib.make_pit(spec, wseed, cost=cost, full_cost=full, discrete_cost=True)
+    pit, model, shape = pitlib.make_pit(spec, wseed, cost=cost, full_cost=full)
+    if late == 'train_net_only':
+        pit.train_net_only()
+    elif late == 'train_features=False':
+        pit.train_features = False
+    pit.discrete_cost = True
+    return pit, model, shape
 
 
 def _use(pit, names, shape):
@@ -142,8 +158,9 @@ def run_instance(p):
         return _run_open(res, p)
     spec, full, mode, wseed, selftest = p['spec'], p['full'], p['mode'], p.get('wseed', 0), p.get('selftest', False)
     cost, names = _cost_arg(spec['fam'], 'dict' if mode.startswith('dict') else mode)
-    pit, model, shape = pitlib.make_pit(spec, wseed, cost=cost, full_cost=full, discrete_cost=True)
+    pit, model, shape = _make(spec, wseed, cost, full, p.get('late'))
     hist = p.get('hist')
+    late = p.get('late')
 
     def fn(ex):
         pairs, sy = pitlib.fresh_masks(pit)
@@ -179,8 +196,8 @@ def run_instance(p):
                 if r == 'sat':
                     m2, _ = pitlib.grid_model(ex, sy, [bad] if bad is not True else [])
                     m2 = m2 or m
-                    rec = {'spec': spec, 'wseed': wseed, 'full': full, 'mode': mode, 'metric': metric, 'masks': pitlib.values_of(m2, sy), 'observable': obs, 'hist': hist,
-                           'key': f'{pitlib.prog_id(spec)}|{metric}|{obs}|full={int(full)}|{mode}' + (f'|after_use+{hist}' if hist else '') + ('|selftest' if selftest else '')}
+                    rec = {'spec': spec, 'wseed': wseed, 'full': full, 'mode': mode, 'metric': metric, 'masks': pitlib.values_of(m2, sy), 'observable': obs, 'hist': hist, 'late': late,
+                           'key': f'{pitlib.prog_id(spec)}|{metric}|{obs}|full={int(full)}|{mode}' + (f'|after_use+{hist}' if hist else '') + (f'|late_discrete:{late}' if late else '') + ('|selftest' if selftest else '')}
                     rec['what'] = f'{pitlib.prog_id(spec)} full_cost={full} {mode}: discrete {metric} cost {st.model_value(m2, term)} != {obs} value {ind.get(metric) if obs == "independent" else want[metric]}'
                     if selftest:
                         res.violations.append(jsonable(rec))
@@ -197,7 +214,7 @@ def run_instance(p):
             m2, _ = pitlib.grid_model(ex, sy, [])
             if m2 is not None:
                 masks = pitlib.values_of(m2, sy)
-                got, want_c, ind_c = concrete_case({'spec': spec, 'wseed': wseed, 'full': full, 'mode': mode, 'masks': jsonable(masks), 'hist': hist})
+                got, want_c, ind_c = concrete_case({'spec': spec, 'wseed': wseed, 'full': full, 'mode': mode, 'masks': jsonable(masks), 'hist': hist, 'late': late})
                 eng = {k: float(st.model_value(m2, t)) for k, t in costs.items()}
                 res.sample({'program': pitlib.prog_id(spec), 'full_cost': full, 'mode': mode, 'masks': masks, 'cost_engine': eng, 'cost_exported_from_scratch': want_c})
                 if all(abs(eng[k] - got[k]) <= 1e-6 * max(1, abs(got[k])) for k in eng):
